@@ -54,11 +54,34 @@ def setup_python_env():
     logging.disable(logging.CRITICAL)
 
 
+_WD = {}
+
+
+def wdir(pid):
+    """scratch directory of this process for property pid (per process, so that concurrent runs of
+    one check - e.g. against /repo and against a scratch copy - cannot delete each other's files)"""
+    if pid not in _WD:
+        owner = os.getpid()
+        d = os.path.join(WORK, '%s_p%d' % (pid, owner))
+        shutil.rmtree(d, ignore_errors=True)
+        os.makedirs(d, exist_ok=True)
+        _WD[pid] = d
+        import atexit
+
+        def _cleanup(d=d, owner=owner):
+            if os.getpid() == owner and not os.environ.get('VERIF_KEEP_WORK'):
+                try:
+                    os.chdir(VERIF)
+                except OSError:
+                    pass
+                shutil.rmtree(d, ignore_errors=True)
+        atexit.register(_cleanup)
+    os.makedirs(_WD[pid], exist_ok=True)
+    return _WD[pid]
+
+
 def workdir(pid):
-    d = os.path.join(WORK, pid)
-    shutil.rmtree(d, ignore_errors=True)
-    os.makedirs(d, exist_ok=True)
-    return d
+    return wdir(pid)
 
 
 # ----------------------------------------------------------------------------------------------
@@ -240,8 +263,7 @@ def proof_step(pid, gen=None, log=print, extra_targets=()):
         if m:
             res['errors'].append('failing file: %s line %s' % m[-1])
     else:
-        wd = os.path.join(WORK, pid)
-        os.makedirs(wd, exist_ok=True)
+        wd = wdir(pid)
         tmpv = os.path.join(wd, 'PropRecheck_%s.v' % pid)
         shutil.copy(prop, tmpv)
         rc2, out2 = coqc(tmpv, timeout=900)
@@ -286,8 +308,7 @@ def _parse_nat_lists(out):
 def run_case_files(pid, header, case_type, preds, coq_cases, chunk=300, timeout=900, log=print):
     """coq_cases: list of Coq terms of type case_type.  preds: list of Coq boolean predicates
     (names) over case_type.  Returns list over preds of sorted global failing indices, plus errors."""
-    wd = os.path.join(WORK, pid)
-    os.makedirs(wd, exist_ok=True)
+    wd = wdir(pid)
     files = []
     for k in range(0, len(coq_cases), chunk):
         part = coq_cases[k:k + chunk]
@@ -322,8 +343,7 @@ def run_case_files(pid, header, case_type, preds, coq_cases, chunk=300, timeout=
 
 
 def coq_eval(pid, header, term, timeout=300):
-    wd = os.path.join(WORK, pid)
-    os.makedirs(wd, exist_ok=True)
+    wd = wdir(pid)
     path = os.path.join(wd, 'eval_%s_%s.v' % (pid, hashlib.sha1(term.encode()).hexdigest()[:10]))
     with open(path, 'w') as f:
         f.write(header + '\nEval vm_compute in (%s).\n' % term)
